@@ -221,6 +221,10 @@ void remove_object_hash (object_t * ob) {
   s = find_obj_n (ob->name, &h);	/* cycles the ob to the front */
 
   DEBUG_CHECK1 (s != ob, "Remove object \"/%s\": found a different object!", ob->name);
+  /* an object that is not in the table (its name belonged to another one when it was
+   * entered) must not take the head of the chain with it */
+  if (s != ob)
+    return;
 
   obj_table[h] = ob->next_hash;
   ob->next_hash = 0;
